@@ -51,6 +51,7 @@ inductive Mut where
 
 structure Input where
   p       : Packet
+  po      : Nat       -- the deprecated field Header.PayloadOffset (a header field like any other)
   nils    : Nils
   mutn    : Mut
   onClone : Bool      -- true: the clone is mutated and the original observed; false: the reverse
@@ -60,6 +61,7 @@ structure Obs where
   marshal0  : Res Bytes   -- original.Marshal() before anything else
   clone     : Side        -- the clone right after Packet.Clone
   cloneNils : Nils
+  clonePO   : Nat         -- clone.PayloadOffset
   ovPayload : Bool        -- clone.Payload shares memory with a byte slice of the original
   ovCsrc    : Bool        -- clone.CSRC / original.CSRC backing arrays overlap
   ovExtArr  : Bool        -- the two `[]Extension` backing arrays overlap
@@ -67,11 +69,14 @@ structure Obs where
   hclone    : Header      -- Header.Clone on its own (canonical header)
   hRaw      : UInt16
   hNils     : Nils        -- (payload flag unused: false)
+  hPO       : Nat
   hovCsrc   : Bool
   hovExtArr : Bool
   hovExtPl  : Bool
   other     : Side        -- the side that was NOT mutated, after the mutation
   otherMarshal : Res Bytes   -- and its Marshal()
+  hAfter    : Header      -- the Header.Clone taken before, re-read after the mutation
+  hAfterRaw : UInt16
   deriving DecidableEq, Repr
 
 /-- the model's observation: cloning is the identity on values, nothing is shared, a mutation of
@@ -81,28 +86,33 @@ def modelObs (x : Input) : Obs :=
   { marshal0 := pktMarshal x.p
     clone := Side.of c
     cloneNils := x.nils
+    clonePO := x.po
     ovPayload := false, ovCsrc := false, ovExtArr := false, ovExtPl := false
     hclone := canonH (hdrClone x.p.header)
     hRaw := (hdrClone x.p.header).extProfile
     hNils := { x.nils with payload := false }
+    hPO := x.po
     hovCsrc := false, hovExtArr := false, hovExtPl := false
     other := Side.of (if x.onClone then x.p else c)
-    otherMarshal := pktMarshal (if x.onClone then x.p else c) }
+    otherMarshal := pktMarshal (if x.onClone then x.p else c)
+    hAfter := canonH (hdrClone x.p.header)
+    hAfterRaw := (hdrClone x.p.header).extProfile }
 
 /-- equal: every field (padding size included), nil-ness preserved -/
 def equal (x : Input) (o : Obs) : Bool :=
-  o.clone == Side.of x.p && o.cloneNils == x.nils &&
+  o.clone == Side.of x.p && o.cloneNils == x.nils && o.clonePO == x.po &&
   o.hclone == canonH x.p.header && o.hRaw == x.p.header.extProfile &&
-  o.hNils == { x.nils with payload := false }
+  o.hNils == { x.nils with payload := false } && o.hPO == x.po
 
 /-- no memory shared between the clone and the original -/
 def disjoint (o : Obs) : Bool :=
   !o.ovPayload && !o.ovCsrc && !o.ovExtArr && !o.ovExtPl && !o.hovCsrc && !o.hovExtArr && !o.hovExtPl
 
 /-- the side that was not mutated still reports the original fields and serialises as the
-    original did before cloning -/
+    original did before cloning; so does the separate Header.Clone taken before the mutation -/
 def independent (x : Input) (o : Obs) : Bool :=
-  o.other == Side.of x.p && o.otherMarshal == o.marshal0
+  o.other == Side.of x.p && o.otherMarshal == o.marshal0 &&
+  o.hAfter == canonH x.p.header && o.hAfterRaw == x.p.header.extProfile
 
 /-- C20 on one observation (for every packet description, well-formed or not) -/
 def pred (x : Input) (o : Obs) : Bool := equal x o && disjoint o && independent x o
